@@ -80,6 +80,10 @@ func CompletePartiteGraph(nums ...int) *DenseGraph {
 
 //Path returns a copy of the path on n vertices.
 func Path(n int) *DenseGraph {
+	if n < 2 {
+		//There are no edges.
+		return NewDense(n, nil)
+	}
 	edges := make([]byte, (n*(n-1))/2)
 	for i := 0; i < n-1; i++ {
 		edges[((i+1)*i)/2+i] = 1
@@ -117,6 +121,10 @@ func Cycle(n int) *DenseGraph {
 
 //Star returns a copy of the star on n vertices.
 func Star(n int) *DenseGraph {
+	if n < 2 {
+		//There are no edges.
+		return NewDense(n, nil)
+	}
 	edges := make([]byte, (n*(n-1))/2)
 	for i := 1; i < n; i++ {
 		edges[(i*(i-1))/2] = 1
